@@ -166,9 +166,8 @@ func (sesh *Session) OpenStream() (*Stream, error) {
 
 // Accept is similar to net.Listener's Accept(). It blocks and returns an incoming stream
 func (sesh *Session) Accept() (net.Conn, error) {
-	if sesh.IsClosed() {
-		return nil, ErrBrokenSession
-	}
+	// acceptCh is closed when the session closes; streams queued before that are
+	// still handed over, so that data which arrived before the close is not lost
 	stream := <-sesh.acceptCh
 	if stream == nil {
 		return nil, ErrBrokenSession
